@@ -287,6 +287,37 @@ def run_check(tier, seed):
     mo = run_lines([ZVM], [f"RONP - | {r}" for r in rp])
     outs = run_procs([(["version", "--source=stdin", "--output-format=" + rng.choice(["semver", "pep440", "zerv"])], d.encode()) for _, _, d in docs])
     run.evaluations += 2 * len(docs)
+    # ---- deeply nested custom values: whatever --custom accepts must be emitted as a document that zerv reads back (also `zerv flow`,
+    # which re-reads its own intermediate document), byte-identically; what it does not accept must be refused up front
+    st = run.streams.setdefault("deeply_nested_custom_json", {"cases": 0, "accepted": 0, "refused_up_front": 0})
+    for depth in [1, 5, 30, 60, 61, 62, 63, 64, 65, 90, 100, 120, 125, 126, 127, 128, 200, 1000]:
+        for shape in ("array", "object"):
+            if shape == "array":
+                j = '{"a":' + "[" * depth + "1" + "]" * depth + "}"
+            else:
+                j = '{"a":' * depth + "1" + "}" * depth
+            r1 = run_procs([(["version", "--source=none", "--tag-version=1.2.3", "--custom=" + j, "--output-format=zerv"], None)], timeout=60)[0]
+            st["cases"] += 1
+            run.evaluations += 1
+            desc = {"custom": f"{shape} nested {depth} deep"}
+            if panicked(r1[0], r1[2]):
+                run.add_violation("oracle", {"stream": "deeply_nested_custom_json", "what": "panic", "described": desc, "stderr": r1[2].decode("utf-8", "replace")[-300:]}, True)
+                continue
+            if r1[0] != 0:
+                st["refused_up_front"] += 1
+                if r1[1] or depth <= 100:
+                    run.add_violation("oracle", {"stream": "deeply_nested_custom_json", "what": "a moderately nested custom value is refused, or output accompanies the refusal", "described": desc,
+                                                 "stderr": r1[2].decode("utf-8", "replace")[-300:]}, True)
+                continue
+            st["accepted"] += 1
+            r2, r3 = run_procs([(["version", "--source=stdin", "--output-format=zerv"], r1[1]), (["flow", "--source=stdin"], r1[1])], timeout=60)
+            if r2[0] != 0 or r2[1] != r1[1]:
+                run.add_violation("oracle", {"stream": "deeply_nested_custom_json", "what": "an emitted document is not read back (or not re-emitted byte-identically)", "described": desc, "rc": r2[0],
+                                             "stderr": r2[2].decode("utf-8", "replace")[-300:]}, True)
+            elif r3[0] != 0 or r3[1].strip() != b"1.2.3":
+                run.add_violation("oracle", {"stream": "deeply_nested_custom_json", "what": "`zerv flow` cannot process a document that `zerv version` emitted", "described": desc, "rc": r3[0],
+                                             "stdout": r3[1].decode("utf-8", "replace")[:100], "stderr": r3[2].decode("utf-8", "replace")[-300:]}, True)
+
     st = run.streams.setdefault("damaged_documents", {"cases": 0, "must_reject": 0, "free": 0, "rejected": 0, "accepted": 0, "kinds": collections.Counter()})
     for (kind, must, d), r, m, (rc, out, err) in zip(docs, rp, mo, outs):
         st["cases"] += 1
